@@ -83,6 +83,30 @@ pub(super) fn extract_variables_from_expr(expr: &Expression, vars: &mut HashSet<
                 extract_variables_from_expr(&pair.value, vars);
             }
         }
+        Expression::Case(case_expr) => {
+            if let Some(test_expr) = &case_expr.expression {
+                extract_variables_from_expr(test_expr, vars);
+            }
+            for (when_expr, then_expr) in &case_expr.when_clauses {
+                extract_variables_from_expr(when_expr, vars);
+                extract_variables_from_expr(then_expr, vars);
+            }
+            if let Some(else_expr) = &case_expr.else_expression {
+                extract_variables_from_expr(else_expr, vars);
+            }
+        }
+        Expression::ListComprehension(comp) => {
+            extract_variables_from_expr(&comp.list, vars);
+            let mut scoped = HashSet::new();
+            if let Some(where_expr) = &comp.where_expression {
+                extract_variables_from_expr(where_expr, &mut scoped);
+            }
+            if let Some(map_expr) = &comp.map_expression {
+                extract_variables_from_expr(map_expr, &mut scoped);
+            }
+            scoped.remove(&comp.variable);
+            vars.extend(scoped);
+        }
         _ => {}
     }
 }
